@@ -12,8 +12,14 @@ abbrev Label := Option String
 
 namespace Label
 
+/-- `'.'.join(labels)` -/
+def joinDots : List (List Char) → List Char
+  | [] => []
+  | [p] => p
+  | p :: q :: r => p ++ '.' :: joinDots (q :: r)
+
 /-- `'(' + '.'.join(labels) + ')'` -/
-def combineChars (ls : List (List Char)) : List Char := '(' :: (List.intercalate ['.'] ls ++ [')'])
+def combineChars (ls : List (List Char)) : List Char := '(' :: (joinDots ls ++ [')'])
 
 /-- the loop of `_split_leg_label` over the characters strictly between the outer parentheses:
 `depth` = number of unclosed '(' to the left (may go negative, as in the code), `cur` = characters of the
